@@ -78,7 +78,15 @@ def main():
     mon_fns = {}
     if rel.get("monitor"):
         import translate_mon
-        mon_fns = translate_mon.function_lines(REPO)     # {file: {def line}}
+        _, progs, _, _ = translate_mon.emit_text(REPO)
+        for _name, (prog, res) in progs.items():
+            relp = os.path.relpath(prog.path, SRC)
+            for key in res:                                  # (class, method) -> translated body
+                fn = prog.methods.get(key)
+                node = fn[0] if isinstance(fn, tuple) else fn
+                ln = getattr(node, "lineno", None)
+                if ln:
+                    mon_fns.setdefault(relp, set()).add(ln)
     rows, tot = [], dict(fns=0, lines=0, fn=0, fnf=0, exc=0, lock=0, mon=0, anyt=0)
     per_fn = []
     for root, _, files in sorted(os.walk(SRC)):
